@@ -5,8 +5,10 @@ package main
 import (
 	"context"
 	"fmt"
+	"runtime"
 	"strings"
 	"sync"
+	"time"
 
 	"github.com/IrineSistiana/mosdns/v5/coremain"
 	"github.com/IrineSistiana/mosdns/v5/pkg/query_context"
@@ -47,6 +49,8 @@ type thru04 struct {
 	mu     sync.Mutex
 	before map[thruKey04]*dns.Msg
 	seen   map[int]q04 // position -> question the cache there was handed last
+	keys   map[int]map[string]bool // cache instance -> keys of the questions it was handed
+	bg     int                     // walks that started directly behind a cache plugin (background refreshes of a lazy cache)
 }
 
 type thruFront04 struct {
@@ -69,12 +73,26 @@ type thruBehind04 struct {
 func (p *thruBehind04) Exec(ctx context.Context, qCtx *query_context.Context, next sequence.ChainWalker) error {
 	q := q04FromMsg(qCtx.Q())
 	p.t.mu.Lock()
-	rb := p.t.before[thruKey04{qCtx, p.pos}]
+	rb, walked := p.t.before[thruKey04{qCtx, p.pos}]
 	delete(p.t.before, thruKey04{qCtx, p.pos})
-	p.t.seen[p.pos] = q
+	if walked {
+		p.t.seen[p.pos] = q
+		if k := cache.VerifGetMsgKey(qCtx.Q()); k != "" {
+			if p.t.keys[p.inst] == nil {
+				p.t.keys[p.inst] = map[string]bool{}
+			}
+			p.t.keys[p.inst][strings.Clone(k)] = true
+		}
+	} else {
+		// This context did not pass the recorder in front of the cache plugin: it is the copy on which a lazy
+		// cache refreshes a stale entry in the background. Nothing was served here; whatever response the copy
+		// carries was in the context the cache plugin was handed. What the rest of the chain produces for it is
+		// (as everywhere) what this cache may store for the question of the copy.
+		p.t.bg++
+	}
 	p.t.mu.Unlock()
 	ra := qCtx.R()
-	if ra != nil && ra != rb {
+	if walked && ra != nil && ra != rb {
 		p.t.o.hit(p.inst, p.pos, q, serial04(ra))
 	}
 	err := next.ExecNext(ctx, qCtx)
@@ -90,14 +108,34 @@ type thruChain04 struct {
 	shorts  []*sequence.Sequence // shorts[k]: k-th cache plugin -> upstream
 	desc    string
 	closers []func()
+	lazy    map[int]*cache.Cache // cache instance -> the plugin, for instances with lazy_cache_ttl
+	neg     int
+}
+
+// age04 lets time pass for the lazy caches: every entry of a question they were handed becomes stale (its message
+// lifetime is over, the entry is still kept), as after a wait of the answer's TTL. Returns the number of entries aged.
+func (ch *thruChain04) age04(t *thru04) int {
+	n := 0
+	t.mu.Lock()
+	defer t.mu.Unlock()
+	for inst, c := range ch.lazy {
+		for k := range t.keys[inst] {
+			if m, stored, msgExp, cacheExp, ok := c.VerifPeek(k); ok && msgExp.After(time.Now()) {
+				c.VerifInject(k, m, stored, time.Now().Add(-time.Millisecond), cacheExp)
+				n++
+			}
+		}
+	}
+	return n
 }
 
 func buildThru04(r *Run, o *obs04, t *thru04) (*thruChain04, error) {
 	plugins := map[string]any{}
 	m := coremain.NewTestMosdnsWithPlugins(plugins)
 	bq := sequence.NewBQ(m, m.Logger())
-	ch := &thruChain04{}
-	plugins["up"] = &up04{o: o} // answers only a context that has no response yet (`[!has_resp] upstream`)
+	ch := &thruChain04{lazy: map[int]*cache.Cache{}}
+	ch.neg = pickNeg04(r)
+	plugins["up"] = &up04{o: o, neg: ch.neg} // answers only a context that has no response yet (`[!has_resp] upstream`)
 	names := []string{"h0.chain.test.", "h1.chain.test.", "t.chain.test."}
 	types := []uint16{dns.TypeA, dns.TypeAAAA, dns.TypeTXT, 257, r.U16()}
 
@@ -113,18 +151,21 @@ func buildThru04(r *Run, o *obs04, t *thru04) (*thruChain04, error) {
 			continue
 		}
 		args := &cache.Args{Size: 1024}
-		if r.Rng.Intn(6) == 0 {
+		if r.Rng.Intn(4) == 0 {
 			args.LazyCacheTTL = 3600
 		}
 		c := cache.NewCache(args, cache.Opts{})
 		ch.closers = append(ch.closers, func() { c.Close() })
 		inst[k] = nInst
+		if args.LazyCacheTTL > 0 {
+			ch.lazy[nInst] = c
+		}
 		plugins[fmt.Sprintf("cache%d", nInst)] = c
 		nInst++
 	}
 	seg := func(k int) ([]sequence.RuleArgs, []string) {
 		return []sequence.RuleArgs{{Exec: fmt.Sprintf("$front%d", k)}, {Exec: fmt.Sprintf("$cache%d", inst[k])}, {Exec: fmt.Sprintf("$behind%d", k)}},
-			[]string{fmt.Sprintf("cache#%d", inst[k])}
+			[]string{fmt.Sprintf("cache#%d%s", inst[k], map[bool]string{true: "(lazy_cache_ttl=3600)"}[ch.lazy[inst[k]] != nil])}
 	}
 	var rules []sequence.RuleArgs
 	var desc []string
@@ -160,7 +201,7 @@ func buildThru04(r *Run, o *obs04, t *thru04) (*thruChain04, error) {
 	}
 	rules = append(rules, sequence.RuleArgs{Exec: "$up"})
 	desc = append(desc, "[!has_resp]upstream")
-	ch.desc = strings.Join(desc, " -> ") + "  (no `[has_resp] accept` anywhere; every cache instance also sits in a sequence `cache -> [!has_resp]upstream` of its own)"
+	ch.desc = strings.Join(desc, " -> ") + "  (the upstream answers with " + negDesc04(ch.neg) + "; no `[has_resp] accept` anywhere; every cache instance also sits in a sequence `cache -> [!has_resp]upstream` of its own)"
 	for k := 0; k < nCache; k++ {
 		sq, err := sequence.NewSequence(bq, rules[starts[k]:])
 		if err != nil {
@@ -187,7 +228,7 @@ func runThrough04(r *Run) {
 
 func runThroughOne04(r *Run, i int) {
 	o := &obs04{produced: map[int]map[int][]q04{}, upSaw: map[int]string{}}
-	t := &thru04{o: o, before: map[thruKey04]*dns.Msg{}, seen: map[int]q04{}}
+	t := &thru04{o: o, before: map[thruKey04]*dns.Msg{}, seen: map[int]q04{}, keys: map[int]map[string]bool{}}
 	ch, err := buildThru04(r, o, t)
 	defer func() {
 		for _, f := range ch.closers {
@@ -207,10 +248,27 @@ func runThroughOne04(r *Run, i int) {
 		if q.do {
 			qCtx.QOpt().SetDo()
 		}
+		g0 := runtime.NumGoroutine()
 		if err := sq.Exec(context.Background(), qCtx); err != nil {
 			r.Count("through-query:error")
 		}
 		r.Count("through-query")
+		if len(ch.lazy) > 0 {
+			// a lazy cache refreshes a stale entry in the background: let the refresh finish (store included)
+			for dl := time.Now().Add(5 * time.Second); runtime.NumGoroutine() > g0; time.Sleep(50 * time.Microsecond) {
+				if time.Now().After(dl) {
+					r.Count("through-query:refresh-still-running-after-5s")
+					break
+				}
+			}
+		}
+	}
+	// time passes: the entries of the lazy caches go stale (no real waiting)
+	age := func() {
+		if n := ch.age04(t); n > 0 {
+			history = append(history, fmt.Sprintf("(the answers' TTL passes: %d entries of the lazy cache plugins are stale now)", n))
+			r.Count("through-chain:aged-lazy-entries")
+		}
 	}
 	base := q04{nq: 1, qclass: dns.ClassINET, hasOpt: true, name: "h0.chain.test.", qtype: []uint16{dns.TypeA, dns.TypeAAAA, dns.TypeTXT, 257}[r.Rng.Intn(4)],
 		ad: r.Rng.Intn(4) == 0, cd: r.Rng.Intn(4) == 0, do: r.Rng.Intn(3) == 0}
@@ -247,6 +305,18 @@ func runThroughOne04(r *Run, i int) {
 			sq, where := pick()
 			ask(sq, where, q)
 		}
+		if len(ch.lazy) > 0 && r.Rng.Intn(4) != 0 {
+			// the later caches' entries go stale while the earlier cache's is alive; the question walks the chain
+			// again (the earlier hit travels on, a later lazy cache refreshes in the background on a copy of the
+			// context), then what the later caches were handed is asked again
+			age()
+			ask(ch.full, "at the head:", base)
+			for _, q := range later {
+				q.hasOpt = true
+				sq, where := pick()
+				ask(sq, where, q)
+			}
+		}
 	}
 	for j, n := 0, 2+r.Rng.Intn(6); j < n; j++ {
 		q := base
@@ -264,10 +334,20 @@ func runThroughOne04(r *Run, i int) {
 				q.hasOpt = true
 			}
 			t.mu.Unlock()
+		case 4:
+			if len(ch.lazy) > 0 {
+				age()
+			}
 		}
 		sq, where := pick()
 		ask(sq, where, q)
 	}
+	t.mu.Lock()
+	if t.bg > 0 {
+		r.Count("through-chain:lazy-refresh-walked")
+	}
+	t.mu.Unlock()
+	r.Count(fmt.Sprintf("through-chain:upstream-kind=%d", ch.neg))
 	o.mu.Lock()
 	fails, evs, hits := o.fails, append([]string{}, o.events...), o.hits
 	o.closed = true
@@ -283,7 +363,7 @@ func runThroughOne04(r *Run, i int) {
 		f := fails[0]
 		f["chain"] = ch.desc
 		f["queries_in_order"] = history
-		r.Fail("in a chain of cache plugins without `[has_resp] accept` between them, a cache plugin served an answer to a question for which the rest of its chain had never produced that answer (a response that was already in the query context - the hit of an earlier cache - was stored by a later cache under the key of the rewritten question)", f)
+		r.Fail("in a chain of cache plugins without `[has_resp] accept` between them, a cache plugin served an answer to a question for which the rest of its chain had never produced that answer (e.g. a response that was already in the query context - the hit of an earlier cache - was stored by a later cache, or by its background refresh of a stale entry, under the key of the rewritten question; or an answer stored for one question is found under another question's key)", f)
 	}
 	if len(evs) > 0 {
 		r.Line("chain "+strings.Join(evs, " "), "accept")
